@@ -23,6 +23,7 @@ import (
 // been modified. Otherwise the named templates have been rendered
 // unusable.
 func escapeTemplate(tmpl *Template, node parse.Node, name string) error {
+	verifHook("escape", name)
 	c, _ := tmpl.esc.escapeTree(context{}, node, name, 0)
 	var err error
 	if c.err != nil {
@@ -34,6 +35,7 @@ func escapeTemplate(tmpl *Template, node parse.Node, name string) error {
 		// Prevent execution of unsafe templates.
 		if t := tmpl.set[name]; t != nil {
 			t.escapeErr = err
+			verifHook("escape-failed", name)
 			if c.err != nil {
 				t.text.Tree = nil
 				t.Tree = nil
@@ -805,6 +807,7 @@ func (e *escaper) commit() {
 			panic("error adding derived template")
 		}
 	}
+	verifHook("commit", "")
 	for n, s := range e.actionNodeEdits {
 		ensurePipelineContains(n.Pipe, s)
 	}
